@@ -79,7 +79,7 @@ theorem C18_exp (T : Ty) (w : Nat) (hw : T.fixedN = some w) (e : Int) :
   constructor
   · rintro ⟨b, hb⟩
     rw [hb] at h
-    obtain ⟨n, _, hn0, hf, hm⟩ := h
+    obtain ⟨n, _, hn0, hf, _, hm⟩ := h
     rw [hw] at hm
     subst hm
     exact (need_le_iff _ _ n hn0).2 hf
